@@ -66,9 +66,9 @@ func mineFor(focusName string) func(string) bool {
 	return func(sig string) bool {
 		if focusName == "c03" {
 			return strings.HasPrefix(sig, "ack:") || strings.HasPrefix(sig, "truncate:") || strings.HasPrefix(sig, "attach:") ||
-				strings.HasPrefix(sig, "restart:") || strings.HasPrefix(sig, "apply:")
+				(strings.HasPrefix(sig, "restart:") && !strings.HasPrefix(sig, "restart:term-")) || strings.HasPrefix(sig, "apply:")
 		}
-		return strings.HasPrefix(sig, "fenced:") || strings.HasPrefix(sig, "newterm:")
+		return strings.HasPrefix(sig, "fenced:") || strings.HasPrefix(sig, "newterm:") || strings.HasPrefix(sig, "restart:term-")
 	}
 }
 
@@ -162,4 +162,119 @@ func runSnapshotVsBusyApply(o *hx.Out) {
 	h.checkFence("snapshot of term 2 resumed after NewTerm(4) answered")
 	h.doNewTerm(4)
 	finishSpec(o, h, "snapshot-vs-busy-apply", mineFor(*focus))
+}
+
+// ---- kill -9 at the moment of an answer (spec verdicts only)
+
+// runKillAfterNewTerm: the node answers NewTerm(4) and is killed at once; restarted on the image it must still be in term 4
+// and must refuse the old leader.
+func runKillAfterNewTerm(o *hx.Out, leader bool, kind int) {
+	h := newH(o)
+	h.captureFlush = true
+	specLog(h, 2, 2, 2, 2)
+	if leader {
+		h.doNewTerm(2)
+		h.doBecomeLeader(2)
+		h.doClientWrite(1000)
+		h.doLeaderSync()
+		h.doNewTerm(4)
+		h.doKill(kind)
+		h.doClientWrite(1001) // must be refused: fenced
+		h.doBecomeLeader(2)   // a late BecomeLeader of the old term
+		h.doClientWrite(1002)
+		h.doLeaderSync()
+	} else {
+		h.doNewTerm(2)
+		h.doReplicateOpen(1, 2)
+		h.settle()
+		h.doAppend(1, h.terms[2].log[0], -1)
+		h.settle()
+		h.doAppend(1, h.terms[2].log[1], -1)
+		h.settle()
+		h.doSyncEnd(1)
+		h.settle()
+		h.doNewTerm(4)
+		h.doKill(kind)
+		// the deposed leader of term 2 re-attaches and goes on
+		h.doReplicateOpen(2, 2)
+		h.settle()
+		if s := h.streams[2]; s != nil {
+			h.doAppend(2, h.terms[2].log[2], -1)
+			h.settle()
+			if s.syncState == 2 {
+				h.doSyncEnd(2)
+			}
+		}
+	}
+	h.checkFence("after the kill")
+	finishSpec(o, h, fmt.Sprintf("kill-after-newterm(leader=%v,image=%d)", leader, kind), mineFor(*focus))
+}
+
+// runAppendDuringFlush: entry 1 is appended while the flush of entry 0 is in progress; the sync round ends (acks); kill; the
+// node restarts on the WAL as it was when that flush started.  Every acknowledged entry must be there.
+func runAppendDuringFlush(o *hx.Out) {
+	h := newH(o)
+	h.captureFlush = true
+	specLog(h, 2, 2, 2, 2)
+	h.doNewTerm(2)
+	h.doReplicateOpen(1, 2)
+	h.settle()
+	h.doAppend(1, h.terms[2].log[0], -1)
+	h.settle() // the sync goroutine is at its wal.Sync
+	pk := &parkT{arrived: make(chan struct{}), release: make(chan struct{})}
+	h.mu.Lock()
+	h.flushPark = pk
+	h.mu.Unlock()
+	seDone := make(chan struct{})
+	go func() { h.doSyncEnd(1); close(seDone) }()
+	select {
+	case <-pk.arrived: // the segment's Flush has started (its image is taken)
+		h.doAppend(1, h.terms[2].log[1], -1)
+		close(pk.release)
+	case <-seDone:
+		o.Count("spec:flush-not-reached")
+	}
+	<-seDone
+	h.settle()
+	h.doKill(1)
+	finishSpec(o, h, "append-during-flush-then-kill", mineFor(*focus))
+}
+
+// runGeneratedKills: a generated schedule in which the node is killed right after answers (NewTerm, sync round with acks,
+// Truncate, snapshot, client write completion) and goes on from the image.
+func runGeneratedKills(o *hx.Out, r *hx.Rng, steps int) {
+	h := newH(o)
+	h.captureFlush = true
+	g := &gen{h: h, r: r, plan: map[int64][3]int64{}, done: map[int64]bool{}, raced: true, raced2: true}
+	g.newTerm(2)
+	h.settle()
+	kills := 0
+	for i := 0; i < steps && h.fatal == ""; i++ {
+		n := len(h.acts)
+		g.step()
+		h.checkFence("step")
+		h.settle()
+		answered := false
+		for j := n; j < len(h.acts) && j < len(h.outs); j++ {
+			a, out := h.acts[j], h.outs[j]
+			res := strings.SplitN(out, "|", 2)[0]
+			switch {
+			case strings.HasPrefix(a, "NT:") && strings.HasPrefix(res, "head:"),
+				strings.HasPrefix(a, "TR:") && strings.HasPrefix(res, "head:"),
+				strings.HasPrefix(a, "SN:") && strings.HasPrefix(res, "snap:"),
+				strings.HasPrefix(a, "SE:") && strings.Split(out, "|")[1] != "-",
+				strings.HasPrefix(a, "AP:") && strings.Split(out, "|")[1] != "-",
+				strings.HasPrefix(a, "LS") && strings.Contains(strings.Split(out, "|")[2], "+"):
+				answered = true
+			}
+		}
+		if answered && kills < 4 && r.Chance(40) {
+			kills++
+			h.doKill(r.Intn(2))
+			// the generator's bookkeeping of streams is gone with the node
+			g.nextSid += 100
+			h.settle()
+		}
+	}
+	finishSpec(o, h, "generated-with-kills", mineFor(*focus))
 }
